@@ -95,6 +95,20 @@ Proof. induction cells as [|[mess h] cells IH]; intros noises ds rows r H; cbn [
       * intros [|idx] Hi Hz; [cbn in Hz; congruence|]. cbn [nth]. apply Ht; [cbn in Hi; lia|exact Hz]. Qed.
 
 (* ---- TLWE: the mask polynomials are the drawn words, the phase is the vector of converted Gaussian draws ---- *)
+(* lweCreateKeySwitchKey_fromArray (used by lweCreateKeySwitchKey_old): every cell, h = 0 included, is a fresh encryption whose
+   phase is its message plus its own converted draw *)
+Theorem ks_rows_fresh_spec out_key : forall cells ds rows r, ks_rows_fresh out_key cells ds = Some (rows, r) ->
+  length rows = length cells /\ exists gs, length gs = length cells /\
+    map (lwe_phase out_key) rows = map (fun cg => w32 (fst (fst cg) + dtot32 (fst (snd cg)) (snd (snd cg)))) (combine cells gs).
+Proof. induction cells as [|[mess h] cells IH]; intros ds rows r H; cbn [ks_rows_fresh] in H.
+  - inversion H; subst. split; [reflexivity|]. exists []. split; reflexivity.
+  - destruct (lwe_sym_encrypt out_key mess ds) as [[c r1]|] eqn:E1; [|discriminate].
+    destruct (ks_rows_fresh out_key cells r1) as [[rows' r2]|] eqn:E2; [|discriminate]. inversion H; subst. clear H.
+    destruct (IH _ _ _ E2) as (Hl & gs & Hg & Hp).
+    destruct (lwe_sym_encrypt_spec _ _ _ _ _ E1) as (g & mask & _ & _ & _ & Hph).
+    split; [cbn; now rewrite Hl|]. exists (g :: gs). split; [cbn; now rewrite Hg|].
+    cbn [map combine fst snd]. rewrite Hph, Hp. reflexivity. Qed.
+
 Section T.
 Variable N : nat.
 Hypothesis Npos : (0 < N)%nat.
